@@ -29,6 +29,7 @@ import (
 	"os"
 	"path/filepath"
 	"runtime"
+	"runtime/debug"
 	"sort"
 	"strings"
 	"sync"
@@ -313,6 +314,8 @@ type cluster struct {
 	reuse    bool                      // the next deployment reuses the ids (and directories) of the current operators
 	reused   int
 	refused  int
+	gcOff     bool
+	gcPercent int
 	sr       *recSR   // c14: the source runner the job talks to (records StartCheckpoint)
 	asm      *jobs.Assembly
 }
@@ -463,13 +466,9 @@ func (c *cluster) deploy(n int, ckpt *snapshotpb.JobCheckpoint) error {
 	var prevIDs []string
 	if c.reuse {
 		// Known finding D11 (C09/C15): a table object of an EARLIER incarnation that is collected later deletes "its" file
-		// by name - by then a file of the new database in the reused directory. The tables the previous incarnations
-		// compacted away are unreachable already: let the collector run their clean-ups BEFORE the directory is reused,
-		// so that this (timing dependent) hazard is not part of what the check observes.
-		for k := 0; k < 3; k++ {
-			runtime.GC()
-			time.Sleep(time.Millisecond)
-		}
+		// by name - by then a file of the new database in the reused directory. That timing-dependent hazard is not what
+		// this check judges: all pending clean-ups run now, and no collection happens for the rest of the case.
+		c.noMoreCollections()
 		// surviving workers keep their operator id, hence their DKV directory and `checkpoints` file
 		for _, a := range c.ops {
 			prevIDs = append(prevIDs, a.id)
@@ -530,6 +529,28 @@ func (c *cluster) quiesce() {
 		if o, ok := k.(*operator.Operator); ok {
 			waitDB(o.VerifDKV())
 		}
+	}
+}
+
+// noMoreCollections: from the first reuse of a directory NAME within a case (a surviving operator's directory, a fresh
+// life of the job with the same operator names) until the end of the case the garbage collector stays off, after every
+// clean-up that is already due has run. Deterministic, no sleeps: with the collector off nothing new becomes due; a
+// sentinel object's clean-up, queued by an explicit collection, has run only after the finalizer goroutine (one
+// goroutine, it drains what it grabbed before grabbing again) took a batch queued AFTER the previous round, i.e. after it
+// finished everything queued by the previous round.
+func (c *cluster) noMoreCollections() {
+	if !c.gcOff {
+		c.gcOff = true
+		c.gcPercent = debug.SetGCPercent(-1)
+	}
+	for round := 0; round < 3; round++ {
+		done := make(chan struct{})
+		func() {
+			sentinel := new([64]byte)
+			runtime.AddCleanup(sentinel, func(ch chan struct{}) { close(ch) }, done)
+		}()
+		runtime.GC()
+		<-done
 	}
 }
 
@@ -803,6 +824,9 @@ func execHistory(mode string, c *hx.Case) (*hx.Result, error) {
 		cl.sr = &recSR{}
 	}
 	defer func() {
+		if cl.gcOff {
+			debug.SetGCPercent(cl.gcPercent)
+		}
 		// release the operators of this history and let the finalizers close their files
 		cl.keep, cl.ops, cl.adapters = nil, nil, nil
 		// table objects -> clean-up functions (their argument holds the file) -> os.File finalizers: several cycles
@@ -931,6 +955,7 @@ func execHistory(mode string, c *hx.Case) (*hx.Result, error) {
 			}
 			cl.stopAll()
 			cl.quiesce()
+			cl.noMoreCollections() // the new life writes files under the same names (see D11 there)
 			os.RemoveAll(cl.workDir())
 			os.RemoveAll(filepath.Join(cl.jobDir(), "checkpoints"))
 			cl.gen, cl.ckptID, cl.js, cl.lastCkpt = 0, 0, nil, nil
@@ -1242,13 +1267,9 @@ func execDeploy(c *hx.Case) (*hx.Result, error) {
 		Nontrivial: m > 1 && !ident || m != n, Tags: tags, Observed: map[string]any{"from": fmt.Sprint(from), "handles": handles}}, nil
 }
 
-// a hang of the implementation (a barrier that never returns, a compaction loop that never ends) becomes an
-// execution error of the case instead of a hang of the check; after one hang the remaining histories are skipped
-// (the stuck goroutines keep running and would distort everything that follows)
-var hung bool
-
-const watchdog = 60 * time.Second
-
+// A hang of the implementation (a barrier that never returns, a compaction loop that never ends) is detected by the
+// supervisor of hx (no progress for its bound => the worker is killed and the case reported); the engine itself sets
+// no deadline, so a slow machine cannot turn a correct run into a failure.
 func (eng) Execute(mode string, c *hx.Case) (*hx.Result, error) {
 	switch pStr(c, "kind") {
 	case "assign":
@@ -1258,30 +1279,7 @@ func (eng) Execute(mode string, c *hx.Case) (*hx.Result, error) {
 	case "ticks":
 		return execTicks(c)
 	default:
-		if hung {
-			return nil, fmt.Errorf("skipped: an earlier history hung the implementation")
-		}
-		type out struct {
-			r   *hx.Result
-			err error
-		}
-		ch := make(chan out, 1)
-		go func() {
-			defer func() {
-				if p := recover(); p != nil {
-					ch <- out{nil, fmt.Errorf("implementation panicked: %v", p)}
-				}
-			}()
-			r, err := execHistory(mode, c)
-			ch <- out{r, err}
-		}()
-		select {
-		case o := <-ch:
-			return o.r, o.err
-		case <-time.After(watchdog):
-			hung = true
-			return nil, fmt.Errorf("the implementation did not finish the history within %s (hang or endless background task)", watchdog)
-		}
+		return execHistory(mode, c)
 	}
 }
 
